@@ -55,7 +55,7 @@ def main(tier):
     ck.stubs_used.append('memory.Mapper -> flat 64 KiB array for the CPU part (the real decoder is part b)')
     ops = BASE_OPS
     cjobs = [('cpu', 'VerifInstr', {'op': o, 'cb': 0}) for o in ops] + [('cpu', 'VerifInstr', {'op': o, 'cb': 1}) for o in (range(0, 256, 4) if q else range(256))]
-    cjobs += [('cpu', 'VerifIntrDispatch', {})]
+    cjobs += [('cpu', 'VerifIntrDispatch', {}), ('cpu', 'VerifIntrDispatchArrivals', {}), ('cpu', 'VerifHaltWake', {}), ('cpu', 'VerifHaltIdle', {})]
     ck.run(cjobs, timeout_ms=300000, only=NOASSERT)
     ck.run([('cpu', 'VerifUndefined', {'op': o}) for o in UNDEFINED], timeout_ms=300000)
     ck.finish(explanation='implicit failure sites (index range, nil dereference/invoke, division by zero, explicit panic, unexpected os.Exit) of every harness that executes the real code from an arbitrary invariant state, plus image loading with every byte symbolic')
